@@ -213,7 +213,7 @@ TReq ==
       \* Only when the snapshot could not hold the whole record does the allocation ledger decide.
       rq0 == RxDecode(ev.b, ev.fill, ev.len, cfg.mtu)
       req == [rq0 EXCEPT !.grew =
-                IF rq0.op \notin {OpProbe, OpTrain} \/ ev.st.has = 0 \/ ev.st.nlist + 1 < ObsCapFloor THEN "?"   \* not consulted below the floor
+                IF rq0.op \notin {OpProbe, OpTrain} \/ ev.st.has = 0 THEN "?"          \* only consulted for Probe / Train
                 ELSE IF ev.st.nlist = Len(ev.st.see)
                 THEN (IF \E i \in 1..Len(ev.st.see) : ev.st.see[i] = rq0.rs \o rq0.es \o rq0.ed THEN "yes" ELSE "no")
                 ELSE IF ev.live > ev.live0 THEN "yes" ELSE "no"]
